@@ -446,6 +446,23 @@ func vC44Inventory(t *testing.T) (coq string, desc []string) {
 		terms = append(terms, cqPair(strconv.Quote(r.route), cqPair(strconv.Quote(r.handler), sh)))
 		desc = append(desc, r.route+" "+r.handler+" "+r.shape)
 	}
+	// name the rows that differ from the driven endpoint list first (the orchestrator truncates long descriptions)
+	var diff []string
+	seen := map[string]bool{}
+	for _, r := range rows {
+		seen[r.route] = true
+		if _, ok := pos[r.route]; !ok || r.shape == "ShapeOther" {
+			diff = append(diff, "not driven / not in Model endpoints: "+r.handler+" route '"+r.route+"' "+r.shape)
+		}
+	}
+	for _, e := range vC44EPs {
+		if !seen[e.route] {
+			diff = append(diff, "driven endpoint without a handler calling paginate: "+e.route)
+		}
+	}
+	if len(diff) > 0 {
+		desc = append(diff, desc...)
+	}
 	return cqApp("Inventory", cqList(terms)), desc
 }
 
